@@ -220,7 +220,13 @@ GuardsRet2(e) ==
                         cs.inst[f.inst].owner \notin RespScopes(WaitedBy(e.th, c.line), c.line))),
          CG("close_error_only_if_something_failed", {"C12"}, err # {} =>
                /\ err \subseteq {"disposal"}
-               /\ \E i \in Ids : cs.inst[i].failed /\ Covers(c, cs.inst[i].owner))}
+               /\ \E i \in Ids : cs.inst[i].failed /\ Covers(c, cs.inst[i].owner)),
+         \* the Close that did the work (not one that lost the race and returned early) returns only when everything
+         \* its scope and every descendant owned when it started has been disposed: closing a scope closes its descendants
+         CG("close_returns_after_subtree_disposed", {"C13", "C10", "C11"},
+               (~c.lost /\ ~e.panic /\ (c.op = "closeprov" \/ c.sc \in SNames)) =>
+               \A i \in Ids : (cs.inst[i].disp /\ ~cs.inst[i].value /\ cs.inst[i].born < c.line /\ cs.inst[i].ready > 0
+                                /\ cs.inst[i].ready < c.line /\ Covers(c, cs.inst[i].owner)) => cs.inst[i].closed >= 1)}
      ELSE {})
 
 ApplyRet2(e) ==
